@@ -218,6 +218,8 @@ impl File {
         F: FnOnce() -> R + Send + 'static,
         R: Send + 'static,
     {
+        #[cfg(feature = "pearl_verif")]
+        let f = crate::verif::wrap_inflight(f);
         tokio::task::spawn_blocking(move || f())
             .await
             .expect("spawned blocking task failed")
